@@ -347,7 +347,9 @@ class Check:
         ev = {"property_id": self.id, "tier": self.tier, "seed": self.seed, "level": cfg.get("level", "proof") if cfg.get("level", "proof") in ("exploration", "fault_enumeration", "model_checking", "proof", "translation_validation", "other") else "proof",
               "coverage": cov, "assumptions": cfg.get("assumptions", []), "wall_s": round(wall, 2),
               "violations": nviol}
-        write_json(os.path.join(VERIF, "evidence", self.id + ".json"), ev)
+        # evidence/ holds runs against /repo only; runs against another tree (seeded-change trials) go aside
+        evdir = os.path.join(VERIF, "evidence") if REPO == "/repo" else os.path.join(BUILD, "evidence-alt")
+        write_json(os.path.join(evdir, self.id + ".json"), ev)
 
     def run(self):
         rc = 1
